@@ -57,6 +57,7 @@ def one(name, extra_checks):
         return meta
     finally:
         sh(["git", "-C", "/repo", "worktree", "remove", "--force", wt])
+        sh(["rm", "-rf", "/tmp/verif-out-" + os.path.basename(wt)])
 
 
 def main():
